@@ -42,7 +42,7 @@ def check(run):
             lo = max(lo, 0)
             ng = rng.choice([2, 4, 8, 16, 64])
             ne = max(4, (400 if quick else 1500) // ng)
-            cases.append('%s %s %d %d %s %d %d %d' % (rng.choice(['console', 'console', 'file', 'rolling']), rng.choice(['text', 'json']), ng, ne, capname, lo, hi, rng.choice([7, 64, 1000])))
+            cases.append('%s %s %d %d %s %d %d %d %d' % (rng.choice(['console', 'console', 'file', 'rolling']), rng.choice(['text', 'json']), ng, ne, capname, lo, hi, rng.choice([7, 64, 1000]), rng.choice([0, 1])))
         common.write_lines(tmp + '/c', cases)
         rc, li = common.run_impl('c03', tmp + '/c', tmp + '/i', timeout=1800)
         io = common.read_lines(tmp + '/i')
@@ -58,7 +58,7 @@ def check(run):
                 run.discharged += 1
             total = sum(int(o.split()[0]) for o in io if o.split()[0].isdigit())
             run.stream('c03/concurrent', len(cases), len(cases), False, '2-64 goroutines x both layouts x console (slow, chunk-copying, yielding writer) / file / rolling appenders x bufferCap 1K/4K/10K x line sizes below, '
-                       'in the upper half of, around and beyond the cap; oracle: multiset of whole lines in the sink = multiset of events formatted alone, one Write per event (%d events in total)' % total)
+                       'in the upper half of, around and beyond the cap; with and without a context-fields hook that hands every call the same slice (spare capacity); oracle: multiset of whole lines in the sink = multiset of events formatted alone, one Write per event (%d events in total)' % total)
             run.coverage['samples'].append({'stream': 'c03/concurrent', 'case': cases[0], 'observation': io[0][:200]})
         # (iii) thorough: the same runs under the race detector (a data race on a pooled buffer is reported even when the bytes happen to agree)
         if not quick:
